@@ -77,4 +77,12 @@ VS_REG(MapSInner, "unordered_map<string,Inner>", "map")
 VS_REG(MapUV, "unordered_map<uint64,vector<int32>>", "map")
 VS_REG(MapSD, "unordered_map<string,double>", "map")
 VS_REG(MapIMap, "unordered_map<int32,unordered_map<string,int64>>", "map")
+using VecMapIS = std::vector<std::unordered_map<int32_t, std::string>>;
+using ListSetS = std::list<std::unordered_set<std::string>>;
+using MapSVecS = std::unordered_map<std::string, std::vector<std::string>>;
+using VecListD = std::vector<std::list<double>>;
+VS_REG(VecMapIS, "vector<unordered_map<int32,string>>", "vector")
+VS_REG(ListSetS, "list<unordered_set<string>>", "list")
+VS_REG(MapSVecS, "unordered_map<string,vector<string>>", "map")
+VS_REG(VecListD, "vector<list<double>>", "vector")
 }  // namespace
